@@ -2,9 +2,9 @@
 package c07
 
 import (
-	"reflect"
 	"fmt"
 	"math"
+	"reflect"
 	"strings"
 	"testing"
 
